@@ -421,6 +421,77 @@ sys.exit(0 if ok else 1)
     return guarded(PROP, task, body)
 
 
+def bernoulli_f32_task():
+    """IEEE float32: the Bernoulli term is a number >= 0 for every probability in [0, 1] *including the saturated values 0 and 1*
+    (a curve that rounds to exactly 1.0 far past onset), and ~0 for an observation that agrees with a saturated probability.
+    torch.distributions.Bernoulli.log_prob is kept abstract under its real contract (it clamps the probability away from 0 and 1)."""
+    task = "bernoulli-saturated[F32]"
+
+    def body():
+        rec = Recorder(PROP, task, [BernoulliFamily, D.StatelessDistributionFamilyFromTorchDistribution._nll])
+        st.new_context("F")
+        f32 = torch.float32
+        x = st.sym("x", (2,), f32)
+        w = st.sym("w", (2,), torch.bool)
+        p = st.sym("p", (2,), f32)
+        srt = x.sym[0].sort()
+        zero, one, tiny = z3.FPVal(0.0, srt), z3.FPVal(1.0, srt), z3.FPVal(1e-6, srt)
+        for i in range(2):
+            T.assume(z3.Or(z3.fpEQ(x.sym[i], zero), z3.fpEQ(x.sym[i], one)))
+            T.assume(z3.And(z3.fpGEQ(p.sym[i], zero), z3.fpLEQ(p.sym[i], one)))
+
+        class FakeBernoulli:
+            def __init__(self, probs=None, logits=None, validate_args=None):
+                self.probs = probs
+
+            def log_prob(self, value):
+                P, V = st.to_terms(self.probs), st.to_terms(value)
+
+                def one_(a, b):
+                    k = T.apply_fn("bernoulli_logp", (a, b))
+                    dom = z3.And(z3.fpGEQ(a, zero), z3.fpLEQ(a, one), z3.Or(z3.fpEQ(b, zero), z3.fpEQ(b, one)))
+                    agree = z3.Or(z3.And(z3.fpEQ(a, one), z3.fpEQ(b, one)), z3.And(z3.fpEQ(a, zero), z3.fpEQ(b, zero)))
+                    # contract of the real log_prob on its domain: a non-positive number, ~0 (|.| <= 1.2e-7) when the observation agrees with a saturated probability
+                    T.ctx().axioms.append(z3.Implies(dom, z3.And(z3.Not(z3.fpIsNaN(k)), z3.fpLEQ(k, zero))))
+                    T.ctx().axioms.append(z3.Implies(z3.And(dom, agree), z3.fpGEQ(k, z3.fpNeg(tiny))))
+                    return k
+
+                return st.mk(st.vmap(one_, P, V), f32)
+
+        orig = BernoulliFamily.dist_factory
+        BernoulliFamily.dist_factory = FakeBernoulli
+        rec.stubs.append("torch.distributions.Bernoulli.log_prob -> uninterpreted, under its contract on [0,1] x {0,1}: not NaN, <= 0, >= -1e-6 when the observation agrees with a saturated probability")
+        try:
+            out = BernoulliFamily._nll(WeightedTensor(x, w), p)
+        finally:
+            BernoulliFamily.dist_factory = orig
+
+        def rp(model):
+            return f"""
+from leaspy.variables.distributions import BernoulliFamily
+from leaspy.utils.weighted_tensor import WeightedTensor
+x = {tensor_literal(x, model)}; p = {tensor_literal(p, model)}; w = {tensor_literal(w, model)}
+o = BernoulliFamily._nll(WeightedTensor(x, w), p).value
+agree = ((p == 1) & (x == 1)) | ((p == 0) & (x == 0))
+bad = torch.isnan(o) | (o < 0) | (agree & (o > 1e-6))
+print('x', x, 'p', p, 'nll', o); sys.exit(1 if bool(bad.any()) else 0)
+"""
+
+        O = st.to_terms(out.value)
+        for i in range(2):
+            agree = z3.Or(z3.And(z3.fpEQ(p.sym[i], one), z3.fpEQ(x.sym[i], one)), z3.And(z3.fpEQ(p.sym[i], zero), z3.fpEQ(x.sym[i], zero)))
+            rec.prove(f"number[{i}]", z3.And(z3.Not(z3.fpIsNaN(O[i])), z3.fpGEQ(O[i], zero)), replay=rp, key="C08:bernoulli-saturated", timeout_ms=60000,
+                      what="the Bernoulli term is NaN / negative for a probability in [0,1] (saturated 0 or 1 included)")
+            rec.prove(f"agreeing-saturated[{i}]", z3.Implies(agree, z3.fpLEQ(O[i], tiny)), replay=rp, key="C08:bernoulli-saturated", timeout_ms=60000,
+                      what="an observation that agrees with a saturated probability does not get a (numerically) zero term")
+        rec.twin("ctx")
+        rec.sample({"case": "Bernoulli, float32, p in [0,1] incl. 0 and 1, x in {0,1}"})
+        rec.end_path()
+        return rec.result()
+
+    return guarded(PROP, task, body)
+
+
 class _ZeroModel:
     def eval(self, t, model_completion=True):
         s = t.sort()
@@ -478,7 +549,7 @@ def tasks(tier, seed=0):
     ts += [("weibull_task", dict(family="w", n=2, e=1, with_sources=False)), ("weibull_task", dict(family="ws", n=2, e=1, with_sources=True))]
     ts += [("weibull_task", dict(family="w", n=2, e=2, with_sources=False)), ("weibull_task", dict(family="ws", n=2, e=2, with_sources=True))]
     ts += [("weibull_penalty_task", dict(with_sources=False)), ("weibull_penalty_task", dict(with_sources=True))]
-    ts += [("bernoulli_task", {}), ("mixture_task", {})]
+    ts += [("bernoulli_task", {}), ("bernoulli_f32_task", {}), ("mixture_task", {})]
     if tier == "thorough":
         ts += [("weibull_task", dict(family="w", n=3, e=2, with_sources=False)), ("weibull_task", dict(family="ws", n=2, e=3, with_sources=True)),
                ("weibull_task", dict(family="w", n=3, e=1, with_sources=False))]
